@@ -268,12 +268,19 @@ func checkHistory(plan Plan, ops []HOp, res *histResult, reuse bool) []finding {
 		// 1. account the delivery
 		switch op.Kind {
 		case opLogin:
-			if ss[op.K].loginAt < 0 {
+			// A login delivered again while it is still waiting for its session
+			// replaces the waiting one (and is as young as its own arrival); once
+			// the session is there, the first login after it is the one that counts.
+			if ss[op.K].loginAt < 0 || ss[op.K].recAt < 0 {
 				ss[op.K].loginAt = i
 			}
 		case opRec:
 			if ss[op.K].recAt < 0 {
 				ss[op.K].recAt = i
+				ss[op.K].evs = append(ss[op.K].evs, i)
+			} else {
+				// a LOGIN record repeated for a session that is already open is one
+				// more event of that session
 				ss[op.K].evs = append(ss[op.K].evs, i)
 			}
 		case opEv, opCD, opExec:
@@ -464,6 +471,11 @@ func (x apiExec) run(plan Plan, ops []HOp) *histResult {
 			if strings.HasPrefix(op.Typ, "USER_") && op.Typ != "USER_CMD" || strings.HasPrefix(op.Typ, "CRED_") {
 				epid = plan.Pid[op.K]
 			}
+			if i%5 == 4 {
+				// a process of this session that is the sshd of ANOTHER planned session
+				// (started from this session's shell, before it gets a session of its own)
+				epid = plan.Pid[(op.K+1)%len(plan.Pid)]
+			}
 			res.err[i] = tr.AuditdEvent(vlib.APIEvent(plan.Sid[op.K], t, strconv.Itoa(epid), ts, seq, resultOf(i+1)))
 		case opCD:
 			res.err[i] = tr.AuditdEvent(vlib.APIEvent(plan.Sid[op.K], auparse.AUDIT_CRED_DISP, strconv.Itoa(cdPid(plan.Pid[op.K], i)), ts, seq, resultOf(i)))
@@ -599,7 +611,11 @@ func (rawExec) run(plan Plan, ops []HOp) (*histResult, error) {
 			if !rawUserTypes[typ] {
 				typ = "USER_CMD"
 			}
-			ok = send(vlib.AuUser(typ, ts, seq, plan.Pid[op.K], plan.Sid[op.K], "PAM:x", "success"))
+			rpid := plan.Pid[op.K]
+			if i%5 == 4 {
+				rpid = plan.Pid[(op.K+1)%len(plan.Pid)]
+			}
+			ok = send(vlib.AuUser(typ, ts, seq, rpid, plan.Sid[op.K], "PAM:x", "success"))
 		case opExec:
 			ok = send(vlib.ExecSpec{TSms: ts, Seq: seq, PID: plan.Pid[op.K] + 10000, Ses: plan.Sid[op.K], Success: "yes",
 				Exe: "/usr/bin/ls", Args: []string{"ls", "-l", fmt.Sprintf("/tmp/%d", i)}, Paths: []string{"/usr/bin/ls"}, Cwd: "/root"}.Lines()...)
@@ -757,6 +773,8 @@ func randHistory(rng *vlib.Rng, o randOpts) (Plan, []HOp) {
 		for e := 0; e < ne; e++ {
 			if o.exec && rng.Chance(30) {
 				q = append(q, HOp{Kind: opExec, K: k})
+			} else if rng.Chance(4) {
+				q = append(q, HOp{Kind: opRec, K: k}) // the session's LOGIN record once more, mid-session
 			} else {
 				q = append(q, HOp{Kind: opEv, K: k, Typ: vlib.PickOne(rng, evTypeNames)})
 			}
